@@ -44,6 +44,14 @@ def cells(tier, seed):
     out.append({"blk": "maxpool", "D": 2, "N": 4, "patch": 2, "kp": (0, 0), "entry": "nonorm", "gs": "all"})
     out.append({"blk": "maxpool", "D": 2, "N": 6, "patch": 3, "kp": (0, 1), "entry": "geom", "gs": "all"})
     out.append({"blk": "maxpool", "D": 3, "N": 2, "patch": 2, "kp": (1, 1), "entry": "geom", "gs": "generators"})
+    # non-square / non-cubic images: an axis-exchanging g exchanges the extents, the patch grid must follow
+    out.append({"blk": "maxpool", "D": 2, "N": 4, "shape": (4, 2), "patch": 2, "kp": (1, 0), "entry": "geom", "gs": "all"})
+    out.append({"blk": "maxpool", "D": 2, "N": 4, "shape": (2, 4), "patch": 2, "kp": (0, 1), "entry": "layer", "gs": "all"})
+    out.append({"blk": "maxpool", "D": 2, "N": 4, "shape": (2, 6), "patch": 2, "kp": (0, 0), "entry": "image", "gs": "all"})
+    out.append({"blk": "maxpool", "D": 3, "N": 2, "shape": (2, 2, 4), "patch": 2, "kp": (0, 0), "entry": "geom", "gs": "generators"})
+    out.append({"blk": "avgpool", "D": 2, "N": 4, "shape": (2, 4), "patch": 2, "kp": (1, 1), "gs": "all"})
+    out.append({"blk": "unpool", "D": 2, "N": 2, "shape": (1, 2), "patch": 2, "kp": (1, 0), "gs": "all"})
+    out.append({"blk": "avgpool", "D": 3, "N": 2, "shape": (2, 4, 2), "patch": 2, "kp": (1, 0), "gs": "generators"})
     if tier == "thorough":
         out.append({"blk": "maxpool", "D": 3, "N": 4, "patch": 2, "kp": (1, 0), "entry": "geom", "gs": "all"})
         out.append({"blk": "maxpool", "D": 3, "N": 4, "patch": 2, "kp": (0, 1), "entry": "layer", "gs": "all"})
@@ -90,7 +98,7 @@ def run_cell(cfg, cx):
     gs = group_elements(D, cfg["gs"])
     blk = cfg["blk"]
     ckey = ":".join(f"{a}={cfg[a]}" for a in sorted(cfg))
-    shape = (N,) * D
+    shape = tuple(cfg["shape"]) if cfg.get("shape") else (N,) * D
 
     if blk in ("maxpool", "avgpool", "unpool"):
         patch = cfg["patch"]
@@ -111,7 +119,14 @@ def run_cell(cfg, cx):
             f = lambda x: geom.GeometricImage(x, p, D, True).average_pool(patch).data
         else:
             f = lambda x: geom.GeometricImage(x, p, D, True).unpool(patch).data
-        tr = I.Traced(f, X)
+        _trs = {}
+
+        def tr(x):
+            # one trace per input shape: on a non-square image an axis-exchanging g changes the extents
+            sh = tuple(x.shape)
+            if sh not in _trs:
+                _trs[sh] = I.Traced(f, x)
+            return _trs[sh](x)
         base = tr(X)
         # the declared type of the pooled / unpooled image is how it transforms: (k, parity, D, flags) are those of the input
         if entry in ("geom", "image") and not (blk == "maxpool" and entry in ("geom", "nonorm")):
@@ -126,7 +141,7 @@ def run_cell(cfg, cx):
             # the statement's precondition: the per-patch maximum is attained at a unique pixel -> pairwise distinct comparators per patch
             chans = [X.a[c] for c in range(X.shape[0])] if lead else [X.a]
             for xa in chans:
-                for corner in itertools.product(*[range(0, N, patch)] * D):
+                for corner in itertools.product(*[range(0, (n // patch) * patch, patch) for n in shape]):
                     comps = []
                     for off in itertools.product(range(patch), repeat=D):
                         px = tuple(corner[d] + off[d] for d in range(D))
